@@ -13,7 +13,7 @@
 namespace sim {
 
 ElemLedger g_elems;
-ReallocExpect g_reallocExpect = {false, 0, {0, 0}};
+ReallocExpect g_reallocExpect = {false, 0, {0, 0}, 0};
 
 // ------------------------------------------------------------------------------------------------ names / registry
 static const char *kVecOpNames[] = {
@@ -873,6 +873,8 @@ struct Runner {
         if (is_alias(io.kind)) so += io.srcIdx >= io.pos ? ",src>=pos" : ",src<pos";
         so += pre.size + added_elems(io, pre.size) > pre.capacity ? ",grows" : ",fits";
       }
+      if (io.kind == V_INSERT_RANGE || io.kind == V_APPEND_RANGE || io.kind == V_ASSIGN_RANGE || io.kind == V_CTOR_RANGE)
+        so += std::string(",src=") + src_name(io.stream);
       if (io.fkind) so += io.fkind == F_ELEM ? ",elemfault" : ",allocfault";
       if (expectThrow) so += ",overlimit";
       so += ")";
@@ -910,6 +912,9 @@ struct Runner {
     G.faultKind = io.fkind; G.faultCountdown = io.fkind ? io.fk : -1;
     if (io.fkind && stats) ++stats->faultsAttached;
     g_reallocExpect.known = true; g_reallocExpect.n = w ? 2 : 1; g_reallocExpect.sizes[0] = pre.size; g_reallocExpect.sizes[1] = w ? wpre.size : 0;
+    // operations that add elements one by one (macro loops, single-pass input ranges) reallocate at intermediate sizes
+    if (is_ctor(io.kind)) g_reallocExpect.sizes[0] = 0;  // a new object is built in the slot
+    g_reallocExpect.slack = (is_macro(io.kind) || io.stream == SRC_INPUT) ? io.vals.size() : 0;
     G.inVecOp = true;
     // ---- execute
     Result res, exp;
@@ -1072,8 +1077,8 @@ struct Runner {
         s.mustInline = t.flavour == FL_SMALL;
       }
       if (t.flavour != FL_SMALL) s.mustInline = false;
-      // a failed growth attempt beyond N may legitimately have moved to the heap already
-      if (threw && !threwLimit && sz0 + added_elems(io, sz0) > t.N) s.mustInline = false;
+      // a failed growth attempt beyond N may legitimately have moved to the heap already (capacity is not rolled back)
+      if (threw && !threwLimit) s.mustInline = false;
       if (threw && io.kind == V_SWAP2) { s.mustInline = false; w->mustInline = false; }
       if (s.model.size() > t.N) s.mustInline = false;
       if (w && w->model.size() > w->type->N) w->mustInline = false;
@@ -1162,7 +1167,7 @@ struct Runner {
       if (io.kind == V_APPEND_LOOP && res.appended) {
         double n = (double)res.appended;
         unsigned bound = 2u * (unsigned)std::ceil(std::log2(n)) + 4u;
-        uint64_t rbound = 8ull * res.appended + 64ull;
+        uint64_t rbound = 8ull * (res.appended + sz0) + 64ull;  // O(n) amortised: a vector that already holds sz0 elements moves them too
         if (res.growEvents > bound) {
           char m[200];
           snprintf(m, sizeof m, "appending %zu elements one by one (start size %zu, capacity %zu) caused %u reallocations, bound 2*ceil(log2 n)+4 = %u",
